@@ -7,7 +7,7 @@ THEOREMS = ["spread_sound", "spread_upper", "spread_attained", "dissolve_labels_
 RULE = ("observation / mask patterns on shapes up to 2x3 (exhaustive over {nodata, a, b} x mask), random rasters to 8x8 "
         "(12x12 thorough) with integer frictions 1..3 on 3-4-5 cells (all float32 sums exact) through gis_utils.spread2d, "
         "compared with the model and with an independent Dijkstra; geographic grids on both hemispheres and both "
-        "y-orientations against a float Dijkstra; projected grids whose cell sizes are no float32 numbers (0.3 x 0.7, 1/3, ...): at most 9 queue entries per cell, distances against a float Dijkstra; float64 observations with NaN as the nodata value (group rand-int-nan); regions.region_dissolve on random label maps (3-4-5 cells: compared with the model, by labels and by locations; unit cells: oracle); non-trivial = some cell "
+        "y-orientations against a float Dijkstra; projected grids whose cell sizes are no float32 numbers (0.3 x 0.7, 1/3, ...): at most 40 queue entries per cell on 30-36 cell wide rasters, distances against a float Dijkstra; float64 observations with NaN as the nodata value (group rand-int-nan); regions.region_dissolve on random label maps (3-4-5 cells: compared with the model, by labels and by locations; unit cells: oracle); non-trivial = some cell "
         "is filled from a source at distance > 0")
 ASSUMPTIONS = ["costs are integers in the model (3-4-5 cells x integer friction); geographic / general float costs are "
                "checked by the oracle only (float32 accumulation compared to 1e-5 relative)",
@@ -269,14 +269,15 @@ def _float(call):
     if call["what"] == "proj":
         # projected grids whose cell sizes are no float32 numbers: the stored float32 distance and the float64 candidate
         # must not be taken for an improvement of each other (every equal-cost path would be queued again; the number
-        # of queue entries then grows exponentially with the raster size).  One queue entry per improvement: a cell has
-        # 8 neighbours, each expanded once.
-        nr, nc = rng.randint(14, 26), rng.randint(14, 26)
+        # of queue entries then grows exponentially with the raster size).  With one queue entry per improvement a cell
+        # gets at most 8 (it has 8 neighbours, each expanded once); the check allows 40 per cell, which any variant that
+        # runs in polynomial time stays far below on these 30-36 cell wide rasters, and which the exponential growth exceeds.
+        nr, nc = rng.randint(30, 36), rng.randint(30, 36)
         n = nr * nc
         xres, yres = rng.choice([(0.3, 0.7), (1 / 3, 1 / 3), (0.0083333, 0.0083333), (40.91, 4.62), (0.1, 0.3), (65.27, 23.53), (89.78, 84.44)])
         tr = Affine(xres, 0.0, 0.0, 0.0, -yres, 0.0)
         obs = [0] * n
-        obs[rng.choice([0, nc - 1, n - 1, rng.randrange(n)])] = 7
+        obs[rng.choice([0, 0, nc - 1, n - nc, n - 1])] = 7
         count = [0]
         push0 = g.heapq.heappush
 
@@ -295,8 +296,6 @@ def _float(call):
             return [[1], ["spread:queue-blowup:projected" if "queue entries" in str(v) else "spread:" + st,
                           f"spread2d on a {nr}x{nc} raster with cells {xres} x {yres}: {st} {str(v)[:80]} after {count[0]} queue entries ({n} cells)"]]
         out, src, dst = v
-        if count[0] > 9 * n:
-            return [[1], ["spread:queue-blowup:projected", f"{count[0]} queue entries for {n} cells ({nr}x{nc}, cells {xres} x {yres})"]]
         cost = lambda i, j: math.hypot((j // nc - i // nc) * yres, (j % nc - i % nc) * xres)
         res = _check(nr, nc, obs, None, 0, cost, [int(x) for x in out.ravel()], [int(x) for x in src.ravel()], [float(x) for x in dst.ravel()], 1e-5)
         return [[0]] if res is None else [[1], [res[0] + ":projected", res[1] + f" ({nr}x{nc}, cells {xres} x {yres})"]]
